@@ -49,7 +49,7 @@ type ReplayResult struct {
 }
 
 // modelQuery builds the failing query plus size bounds and get-value requests.
-func (e *Engine) modelQuery(o *Obligation, fn *ssa.Function, capBound int64, fixed map[string]*big.Int, cells []memCell) string {
+func (e *Engine) modelQuery(o *Obligation, fn *ssa.Function, capBound int64, fixed map[string]*big.Int, cells []memCell, extra ...*Term) string {
 	fs := []*Term{o.hyp, Not(o.goal)}
 	ax := e.expandQuantifiers(fs, []*Term{Not(o.goal)})
 	p := NewPrinter()
@@ -82,6 +82,9 @@ func (e *Engine) modelQuery(o *Obligation, fn *ssa.Function, capBound int64, fix
 			p.Assert(Eq(Var(n, d.ret), BVConstBig(v, d.ret)))
 		}
 	}
+	for _, x := range extra {
+		p.Assert(x)
+	}
 	var sb strings.Builder
 	sb.WriteString("(set-option :produce-models true)\n(set-logic QF_UFBV)\n")
 	var cellNames []string
@@ -110,7 +113,20 @@ type memCell struct {
 	term *Term
 }
 
+type objNeed struct {
+	typ types.Type
+	ref uint64
+	key string
+}
+
 type replayCtx struct {
+	needObjs []objNeed
+	objVals  map[string]*big.Int // "obj.<type>.<ref>.<leafpath>" -> value
+	objNames map[string]string
+	nobj     int
+	depth    int
+	post     []string
+	approx   bool // some part of the model state could not be rebuilt (left zero / nil)
 	e       *Engine
 	vals    map[string]*big.Int
 	cells   map[string]*big.Int
@@ -223,6 +239,22 @@ func (rc *replayCtx) expr(pfx string, t types.Type, objMem func(root types.Type,
 			rc.noteRegion(r, o+c)
 			return fmt.Sprintf("%s(%s[%d:%d:%d])", rc.typeStr(t), rc.buf(r), o, o+l, o+c)
 		}
+		// slices of other element types: right length and capacity, zero elements
+		// (their contents are not reconstructed from the model)
+		ln := rc.leaf(pfx + "$l").Int64()
+		cp := rc.leaf(pfx + "$c").Int64()
+		if rc.leaf(pfx+"$r").Sign() == 0 {
+			return fmt.Sprintf("%s(nil)", rc.typeStr(t))
+		}
+		if cp > 65536 || ln > cp {
+			rc.bad = "slice too large to replay"
+			return "nil"
+		}
+		rc.approx = true
+		return fmt.Sprintf("make(%s, %d, %d)", rc.typeStr(t), ln, cp)
+	case *types.Map, *types.Chan, *types.Signature:
+		rc.approx = true
+		return "nil"
 	case *types.Struct:
 		var fs []string
 		for i := 0; i < u.NumFields(); i++ {
@@ -251,6 +283,52 @@ func (rc *replayCtx) expr(pfx string, t types.Type, objMem func(root types.Type,
 	case *types.Pointer:
 		if rc.leaf(pfx).Sign() == 0 {
 			return "nil"
+		}
+		if st, ok := u.Elem().Underlying().(*types.Struct); ok && rc.depth < 2 {
+			ref := rc.leaf(pfx).Uint64()
+			key := fmt.Sprintf("obj.%s.%d", typeKey(u.Elem()), ref)
+			if name, ok := rc.objNames[key]; ok {
+				return name
+			}
+			if rc.objVals == nil {
+				// first pass: record that this object's leaves are needed
+				rc.needObjs = append(rc.needObjs, objNeed{u.Elem(), ref, key})
+				return "nil"
+			}
+			rc.nobj++
+			name := fmt.Sprintf("obj%d", rc.nobj)
+			rc.objNames[key] = name
+			rc.depth++
+			var fs []string
+			for i := 0; i < st.NumFields(); i++ {
+				f := st.Field(i)
+				if !f.Exported() && f.Pkg() != rc.pkg {
+					continue // cannot be set from here: left zero
+				}
+				if arr, ok := f.Type().Underlying().(*types.Array); ok && arr.Len() > maxValueArray {
+					// large embedded array: contents come from its own region
+					if b, ok := arr.Elem().Underlying().(*types.Basic); ok && b.Kind() == types.Uint8 {
+						lo, _ := fieldRange(u.Elem(), i)
+						region := rc.e.fieldRegionConst(u.Elem(), fmt.Sprintf("%s@%d", f.Name(), lo), ref, arr.Len())
+						rc.noteRegion(region, arr.Len())
+						rc.post = append(rc.post, fmt.Sprintf("\tcopy(%s.%s[:], %s)\n", name, f.Name(), rc.buf(region)))
+					}
+					continue
+				}
+				if _, isMutex := f.Type().Underlying().(*types.Struct); isMutex && strings.HasPrefix(typeKey(f.Type()), "sync.") {
+					continue
+				}
+				sub := key + "." + f.Name()
+				ex := rc.exprObj(sub, f.Type())
+				if rc.bad != "" {
+					rc.bad = ""
+					continue // leave the field zero
+				}
+				fs = append(fs, fmt.Sprintf("%s: %s", f.Name(), ex))
+			}
+			rc.depth--
+			rc.decls = append(rc.decls, fmt.Sprintf("\t%s := &%s{%s}\n", name, rc.typeStr(u.Elem()), strings.Join(fs, ", ")))
+			return name
 		}
 	}
 	rc.bad = "no replay builder for type " + t.String()
@@ -312,10 +390,63 @@ func (w *World) replay(res *Result, idx int, outDir string, timeout time.Duratio
 	for k, v := range vals {
 		norm[strings.ReplaceAll(k, ".$", "$")] = v
 	}
+	// symbols renamed because the same parameter name exists at another sort
+	for _, prm := range fn.Params {
+		ls := leavesOf(prm.Type())
+		ts := namedTerms("arg."+prm.Name(), prm.Type())
+		for i, l := range ls {
+			canon := "arg." + prm.Name()
+			if l.path != "" {
+				canon += "." + l.path
+			}
+			if v, ok := vals[ts[i].name]; ok {
+				norm[strings.ReplaceAll(canon, ".$", "$")] = v
+			}
+		}
+	}
 	rc.vals = norm
 	var argExprs []string
 	for _, prm := range fn.Params {
 		argExprs = append(argExprs, rc.expr("arg."+prm.Name(), prm.Type(), nil))
+	}
+	if len(rc.needObjs) > 0 && rc.bad == "" {
+		// second pass: fetch the leaves of the pointed-to objects from the model
+		var ocells []memCell
+		var okeys []string
+		var bounds []*Term
+		for _, n := range rc.needObjs {
+			for _, l := range leavesOf(n.typ) {
+				name := objMemName(n.typ, l)
+				m := NewBaseMem(name, objKS, l.sort, "M0."+name)
+				t := m.Read([]*Term{BVConstU(n.ref, RefSort)})
+				ocells = append(ocells, memCell{term: t})
+				if l.kind == LCap || l.kind == LOff {
+					bounds = append(bounds, BVUle(t, BVConst(4096, IntSort)))
+				}
+				p := l.path
+				okeys = append(okeys, n.key+"."+strings.ReplaceAll(p, ".$", "$"))
+			}
+		}
+		q := e.modelQuery(o, fn, 1<<40, fix, ocells, bounds...)
+		st2, out2, _ := runSolverDaemon(q, timeout)
+		if st2 != "sat" {
+			rr.Note = "object model query failed: " + st2
+			return rr
+		}
+		mv := parseValues(out2)
+		rc.objVals = map[string]*big.Int{}
+		for i, k := range okeys {
+			if v, ok := mv[fmt.Sprintf("mv_%d", i)]; ok {
+				rc.objVals[k] = v
+			} else {
+				rc.objVals[k] = new(big.Int)
+			}
+		}
+		rc.objNames = map[string]string{}
+		argExprs = nil
+		for _, prm := range fn.Params {
+			argExprs = append(argExprs, rc.expr("arg."+prm.Name(), prm.Type(), nil))
+		}
 	}
 	if rc.bad != "" {
 		rr.Note = "replay not possible: " + rc.bad
@@ -406,6 +537,12 @@ func (w *World) replay(res *Result, idx int, outDir string, timeout time.Duratio
 	for _, r := range regs {
 		fmt.Fprintf(&sb, "\t_ = %s\n", rc.buf(r))
 	}
+	for _, d := range rc.decls {
+		sb.WriteString(d)
+	}
+	for _, d := range rc.post {
+		sb.WriteString(d)
+	}
 	fmt.Fprintf(&sb, "\t%s(%s)\n}\n", fn.Name(), strings.Join(argExprs, ", "))
 	os.MkdirAll(outDir, 0o755)
 	path := filepath.Join(outDir, sanitize(h.Name+"."+o.Name)+"_test.go")
@@ -458,4 +595,17 @@ func runReplayFile(path, pkgPath string) (string, error) {
 		return s + "\nVERIF-REPLAY: reproduced: process crashed or hung\n", nil
 	}
 	return s, err
+}
+
+// exprObj renders a field of a heap object: like expr, but leaves come from objVals.
+func (rc *replayCtx) exprObj(pfx string, t types.Type) string {
+	saved := rc.vals
+	rc.vals = rc.objVals
+	defer func() { rc.vals = saved }()
+	return rc.expr(pfx, t, nil)
+}
+
+func (e *Engine) fieldRegionConst(root types.Type, path string, ref uint64, n int64) uint64 {
+	t := e.fieldRegion(root, path, BVConstU(ref, RefSort), n)
+	return t.val.Uint64()
 }
